@@ -33,6 +33,27 @@ CHECKS = {
         "design_ref": "DESIGN.md section 4, C10",
         "note": "alloc::fmt::format stubbed; f64 conversions and type-reference print/parse are outside the claim.",
     },
+    "C23": {
+        "engine": "kani",
+        "technique": "bounded model checking (Kani/CBMC) against a byte-level reference for the five coordinate forms",
+        "text": "each of the five FromStr impls accepts exactly its form for every string <= 6..8 bytes (8..10 thorough) over a "
+                "12-character alphabet; SchemaCoordinate::from_str (dispatch, variant and name components) for every string <= 3 "
+                "bytes (4..5 thorough); Display(parse(s)) == s for <= 3 bytes; parse(Display(c)) == c per kind over 2 names.",
+        "design_ref": "DESIGN.md section 4, C23",
+        "note": "alloc::fmt::format stubbed; memchr_aligned replaced by a checked 'haystack < 16 bytes' assertion; lookup in a "
+                "Schema is outside the claim (IndexMap).",
+    },
+    "C29": {
+        "engine": "kani",
+        "technique": "bounded model checking (Kani/CBMC) against the spec algorithms transcribed as reference functions",
+        "text": "Type::is_assignable_to == AreTypesCompatible for every pair of type references with nesting <= 2 (3 thorough); "
+                "is_variable_usage_allowed == IsVariableUsageAllowed for every shape pair with nesting <= 1 (2 on one side, thorough) x "
+                "names x variable default in {absent, null, 5 non-null kinds} x location default; "
+                "is_valid_implementation_field_type == IsValidImplementationFieldType for nesting <= 2 under every subtype relation on 3 names.",
+        "design_ref": "DESIGN.md section 4, C29",
+        "note": "Schema::is_subtype stubbed by an arbitrary relation; <Type as Clone>::clone stubbed by a bounded structural copy in the "
+                "variable-usage harnesses; that validation calls these predicates at every site is outside the claim.",
+    },
     "C31": {
         "engine": "kani+mir2smt",
         "technique": "bounded model checking (Kani/CBMC, full 63-bit domain) + MIR->SMT (z3, cvc5) with symbolic thread schedule",
@@ -70,13 +91,11 @@ NOT_APPLICABLE = {
     "C20": "two full validation runs; " + _S,
     "C21": "whole pipeline incl. ariadne report rendering and deep recursion; CBMC has no stack-size model; " + _S,
     "C22": "a statement about per-process random hash seeds and process boundaries; no function-level encoding, and iterating a seeded HashMap is out of reach (" + _S + ")",
-    "C23": "check not built yet in this commit (planned: coordinate FromStr/Display on <= 6 bytes)",
     "C24": "resolver execution over Schema and JSON maps; reference implementation absent; " + _S,
     "C25": "check_selection_set takes a Valid<ExecutableDocument> (fragments in an IndexMap) and a HashMap memo; " + _S,
     "C26": "resolver trait objects, JSON maps, async core; " + _S,
     "C27": "schedules of futures: Kani models neither executors nor wake-ups, and the code is far beyond the MIR translator",
     "C28": "coerce_variable_values walks Schema types and serde_json_bytes maps; " + _S,
-    "C29": "check not built yet in this commit (planned: strongest fit)",
     "C30": "check not built yet in this commit (planned: Name/Node op histories with pointer checks)",
     "C32": "whole-program generator over arbitrary::Unstructured + Schema; " + _S,
     "C33": "whole-program generator over Schema + rand; " + _S,
